@@ -76,7 +76,7 @@ static void vf_action_pushed(void);
 static char vf_fake_file[];
 #endif
 
-#if defined(VF_API_NR) || defined(VF_API_R) || defined(VF_API_CXX)
+#if defined(VF_API_NR) || defined(VF_API_R)
 #if defined(VF_FAKE_FILES)
 #define YY_INPUT(buf, result, max_size) do { (result) = vf_read_from(yyin, (buf), (size_t)(max_size)); } while (0)
 #elif !defined(VF_DEFAULT_INPUT)
